@@ -159,8 +159,8 @@ Print Assumptions C08_vcf_records_select.
 
 (* soundness of the boolean checkers evaluated on the implementation's output *)
 Theorem C08_holds_fmt_sound :
-  forall q fo full,
-  holds_fmt q fo = true -> fo_full fo = Ok full ->
+  forall strict q fo full,
+  holds_fmt strict q fo = true -> fo_full fo = Ok full ->
   let m := keep_mask (q_samples q) (g_samples full) in
   mask m (g_samples full) <> [] ->
   exists rd isamples irecs,
